@@ -21,6 +21,8 @@ def gen(rng, tier):
     rng.random()
     for c in C01.gen(rng, tier):
         yield c
+    for c in setmantexp_cases(rng, 150 if tier == "quick" else 1500):
+        yield c
     # the setters named by the property (judged by the conversion oracle of C14, which checks Acc() too)
     for c in C14.gen(rng, tier):
         if c["family"] in ("setters", "setrat-long"):
@@ -28,7 +30,42 @@ def gen(rng, tier):
             yield c
 
 
+def setmantexp_cases(rng, count):
+    for _ in range(count):
+        mnt = common.rand_fin(rng, rng.choice([1, 5, 19, 20, 40]), wide=False)
+        mnt.acc = rng.choice([-1, 1, 1, -1, 0])
+        z = C01.recv(rng)
+        e = rng.choice([0, 0, 0, 1, -1, 30, -30, 2**31 - 1, -2**31, rng.randint(-50, 50)])
+        shape = rng.choice(["0 1", "0 1", "1 1"])
+        yield dict(family="c02-setmantexp", vars=[z, mnt], ops=["SetMantExp %s %d" % (shape, e)])
+
+
+def judge_setmantexp(cases, g):
+    fails = []
+    for c in cases:
+        ob = g.get((c["pid"], 0))
+        if ob is None:
+            continue
+        (key, opn, outcome, res, vs), line = ob
+        t = c["ops"][0].split()
+        mv = C01.dv_obs(c["vars"][int(t[2])])
+        z1 = vs[int(t[1])]
+        msg = None
+        if outcome != "ok":
+            msg = "unexpected outcome " + outcome
+        elif mv[0] != "1":
+            msg = None if (z1[0], z1[1], z1[4]) == (mv[0], mv[1], mv[4]) or z1[0] == mv[0] else "class changed"
+        else:
+            v = pyspec.obs_val(mv)
+            e = max(min(int(t[3]), 2**40), -2**40)
+            msg = pyspec.check_fin_result(z1, v.neg, v.frac, v.e10 + e, int(mv[2]), int(mv[3]))
+        if msg:
+            fails.append((c, "accuracy/value rule violated (SetMantExp): %s" % msg, dict(implementation=line, step=0)))
+    return fails
+
+
 def judge(cases, g, m):
-    a = [c for c in cases if not c.get("family", "").startswith("c14-")]
+    a = [c for c in cases if not c.get("family", "").startswith(("c14-", "c02-"))]
     b = [c for c in cases if c.get("family", "").startswith("c14-")]
-    return C01.judge(a, g, m) + C14.judge(b, g, m)
+    s_ = [c for c in cases if c.get("family", "") == "c02-setmantexp"]
+    return C01.judge(a, g, m) + C14.judge(b, g, m) + judge_setmantexp(s_, g)
